@@ -1158,14 +1158,14 @@ def select_trees(tier, seed):
             else:
                 leaf = fl[i % len(fl)]
                 i += 1
-            plan.append(([n, [leaf]], "quick", 3, ("sample", 150)))
-        # depth 2: seeded choice, every inner kind four times as the middle node
+            plan.append(([n, [leaf]], "quick", 3, ("sample", 100)))
+        # depth 2: seeded choice, every inner kind once as the middle node
         by_mid = {}
         for t in d2:
             by_mid.setdefault(t[1][0][0], []).append(t)
         for mid in INNER:
             c = by_mid.get(mid, [])
-            for t in r.sample(c, min(2, len(c))):
+            for t in r.sample(c, min(1, len(c))):
                 plan.append((t, "quick", 2, "full"))
         return plan
     d3 = trees_of_depth(3)
@@ -1339,7 +1339,7 @@ def run(tier="quick", seed=0):
 
     ntrees = len(seen_tree)
     if tier == "quick":
-        scope = "all 12 leaves alone (histories <= 3 steps, exhaustive), all 204 root+leaf trees (<= 2 steps exhaustive; 150 seeded 3-step histories on one tree per root kind), 2 seeded root+middle+leaf trees per middle kind (<= 2 steps exhaustive)"
+        scope = "all 12 leaves alone (histories <= 3 steps, exhaustive), all 204 root+leaf trees (<= 2 steps exhaustive; 100 seeded 3-step histories on one tree per root kind), 1 seeded root+middle+leaf tree per middle kind (<= 2 steps exhaustive)"
     else:
         scope = "all 12 leaves alone (<= 3 steps exhaustive over the full alphabet, 3000 seeded 4-step), all 204 root+leaf trees (<= 2 steps full alphabet exhaustive; 3 steps over the reduced alphabet exhaustive on a set covering every root and leaf kind, 250 seeded on the others; 80 seeded 4-step), 150 seeded depth-2 trees (<= 2 exhaustive, 150 seeded 3-step) and 100 seeded depth-3 trees (<= 2 exhaustive, 100 seeded 4-step)"
     bound = (
